@@ -14,12 +14,17 @@ power of 4) the range collapses (delta = 0).
 from fractions import Fraction
 
 
-def kept_range(sigma, tol, delta=1e-12):
+def kept_range(sigma, tol, delta=1e-12, etas=None):
     """
     Admissible range of kept counts.  The ambiguity margin of a cumulative weight w_j is  delta * w_j  (floating-point evaluation of the
     rule itself) plus the effect of an absolute error eta = 8 eps sigma_max on every singular value (what a backward-stable SVD
-    guarantees: small singular values are only accurate relative to the largest one).
+    guarantees: small singular values are only accurate relative to the largest one).  `etas` (optional, one per singular value)
+    replaces that global absolute error by a per-value one: a block-diagonal SVD factorises every charge sector separately, so a
+    singular value is accurate relative to the largest one of *its own sector*, however small that sector is next to the others.
     """
+    if etas is not None:
+        order = sorted(range(len(sigma)), key=lambda i: float(sigma[i]))
+        etas = [Fraction(float(etas[i])) for i in order]
     s = sorted(float(x) for x in sigma)
     K = len(s)
     sq = [Fraction(x) ** 2 for x in s]
@@ -34,8 +39,10 @@ def kept_range(sigma, tol, delta=1e-12):
     u = Fraction(0)   # accumulated uncertainty of the cumulative sum of squares
     n_hi = 0   # number discardable with generous threshold
     n_lo = 0   # number discardable with strict threshold
-    for x, sx in zip(sq, s):
+    for j, (x, sx) in enumerate(zip(sq, s)):
         c += x
+        if etas is not None and not exact:
+            eta = etas[j]
         u += 2 * Fraction(sx) * eta + eta * eta
         w = c / tot
         m = d * w + u / tot
